@@ -5,7 +5,8 @@ from sa.cfg import BranchFacts
 from sa.flow import arg_nodes
 from rules import tasks as T
 
-UNITS = ["lib/BuildSystem/BuildSystem.cpp"]
+UNITS = ["lib/BuildSystem/BuildSystem.cpp", "lib/Basic/FileSystem.cpp"]
+FS = "lib/Basic/FileSystem.cpp"
 THOROUGH_ALL_UNITS = False
 EXPLANATION = (
     "The only FileSystem::remove of the stale-file-removal command deletes the loop variable ranging over filesToDelete; it is "
@@ -13,11 +14,88 @@ EXPLANATION = (
     "pathIsPrefixedByPath(file, root) (file first, root second) for some configured root; when roots are configured a path whose "
     "first character is not a separator is skipped before the root test; filesToDelete is written only by "
     "set_difference(prior, expected) over two sorted sets built from the prior value's stale-file list and from expectedOutputs; "
-    "every path of execute reports exactly once with makeStaleFileRemoval(expectedOutputs); isResultValid is constantly false.")
+    "every path of execute reports exactly once with makeStaleFileRemoval(expectedOutputs); isResultValid is constantly false.  "
+    "The local file system's remove() never follows a symbolic link (lstat/link_status only, directory iteration with FollowSymlinks=false), "
+    "removes a directory's entries recursively by their own link type before the directory itself, and touches nothing but the path and "
+    "entries enumerated beneath it.")
 NOT_DECIDED = ("the input/output behaviour of pathIsPrefixedByPath itself (a value-level predicate over all string pairs: a root "
-               "spelled with a trailing separator — see DESIGN note N-1); recursive directory removal in the file system layer.")
+               "spelled with a trailing separator — see DESIGN note N-1); what the kernel does for unlink/rmdir.")
 
 CMD = "StaleFileRemovalCommand"
+
+
+def r_remove_tree(prog, rep):
+    r = rep.rule("R-REMOVE-TREE", "FileSystem::remove deletes the path itself and, for a directory, exactly the entries enumerated beneath it: no stat()/status() that "
+                                  "follows a symbolic link decides what is a directory, iteration does not follow links, every entry is removed through the same "
+                                  "routine with its own link type, the directory is removed after its entries, and errors stop the walk", floor=9)
+    fs = [f for f in prog.functions.values() if relpath(f.file) == FS]
+    rm = [f for f in fs if f.name.endswith("LocalFileSystem::remove")]
+    rec = [f for f in fs if f.name.endswith("_remove_all_r")]
+    ls = [f for f in fs if f.name.endswith("link_status") and not f.is_lambda]
+    tree = [f for f in fs if f.name.endswith("LocalFileSystem::rm_tree")]
+    if len(rm) != 1 or len(rec) != 1 or len(ls) != 1 or len(tree) != 1:
+        raise AnalysisBroken("FileSystem.cpp: remove/_remove_all_r/link_status/rm_tree not found uniquely")
+    rm, rec, ls, tree = rm[0], rec[0], ls[0], tree[0]
+
+    def names(f):
+        return [(c.get("fn") or "").split("::")[-1] for c in f.calls() if c.get("k") == "call"]
+    follow = {"stat", "status", "is_directory", "is_regular_file", "exists", "real_path", "realpath", "canonical"}
+    for f in (rm, rec, ls, tree):
+        bad = [c for c in f.calls() if c.get("k") == "call" and (c.get("fn") or "").split("::")[-1] in follow and "(anonymous namespace)" not in (c.get("fn") or "")]
+        r.check(not bad, "%s|no-link-following-query" % f.name.split("::")[-1], "", "%s queries the target of a symbolic link: %s" % (f.name, expr_str(bad[0]) if bad else ""), f,
+                bad[0] if bad else None)
+    # remove(): every system call takes the path itself
+    sysc = [c for c in rm.calls() if (c.get("fn") or "").startswith("llbuild::basic::sys::") or (c.get("fn") or "").endswith("rm_tree")]
+    ok = len(sysc) >= 4 and all(expr_plain(arg_nodes(c)[0]) == "path.c_str()" for c in sysc) and \
+        set((c.get("fn") or "").split("::")[-1] for c in sysc) == {"unlink", "lstat", "rmdir", "rm_tree"}
+    r.check(ok, "remove|operates-on-path-only", "%d calls" % len(sysc), "remove() applies a system call to something other than its path argument, or a different call set", rm)
+    bfr = BranchFacts(rm, kill="assign")
+    for nm in ("rmdir", "rm_tree"):
+        cs = [c for c in sysc if (c.get("fn") or "").split("::")[-1] == nm]
+        ok = len(cs) == 1 and any(p_ and "S_ISDIR" in a or p_ and "st_mode" in a for a, p_ in (bfr.at_node(cs[0]) or frozenset()))
+        r.check(ok, "remove|%s-only-for-directories" % nm, "", "%s reachable for a path whose lstat does not say directory" % nm, rm)
+    # link_status uses lstat
+    r.check("lstat" in names(ls) and "stat" not in names(ls), "link_status|lstat", "", "link_status does not use lstat", ls)
+    # rm_tree starts the walk at its own argument
+    c = tree.calls("_remove_all_r")
+    r.check(len(c) == 1 and expr_plain(arg_nodes(c[0])[0]) == "path", "rm_tree|starts-at-path", "", "rm_tree walks something other than its argument", tree)
+    # the walk
+    it = [c for c in rec.nodes if c.get("k") == "construct" and (c.get("fn") or "").endswith("directory_iterator::directory_iterator") and len(arg_nodes(c)) == 3]
+    ok = len(it) == 1 and expr_plain(arg_nodes(it[0])[0]) == "path" and core(arg_nodes(it[0])[2]).get("v") is False
+    r.check(ok, "_remove_all_r|iterate-path-without-following-links", "", "directory iteration follows symbolic links or iterates another path", rec)
+    rc = rec.calls("_remove_all_r")
+    ok = len(rc) == 1 and "i->.path()" in expr_plain(arg_nodes(rc[0])[0]) and expr_plain(arg_nodes(rc[0])[1]) == "st.type()"
+    lsc = rec.calls("link_status")
+    ok = ok and len(lsc) == 1 and "i->.path()" in expr_plain(arg_nodes(lsc[0])[0]) and expr_plain(arg_nodes(lsc[0])[1]) == "st" and \
+        rec.elem_pos()[lsc[0]["id"]] is not None and cfg.dominated_by(rec, rec.elem_pos()[rc[0]["id"]], lambda p_, e_: e_ == lsc[0]["id"])[0]
+    r.check(ok, "_remove_all_r|entries-by-own-link-type", "", "an entry is not removed recursively by its own (link) type", rec)
+    rms = [c for c in rec.calls() if (c.get("fn") or "") == "llvm::sys::fs::remove"]
+    ok = len(rms) == 2 and all(expr_plain(arg_nodes(c)[0]) == "path" for c in rms)
+    r.check(ok, "_remove_all_r|removes-path-itself", "", "the walk removes something other than the path it was given", rec)
+    # directory removed after its entries: the directory-branch remove is not reachable before the loop finished => it is after the for in source order
+    loops = [n for n in rec.nodes if n.get("k") == "for"]
+    ok = len(loops) == 1 and len(rms) == 2 and min(c["id"] for c in rms) > max(x["id"] for x in loops[0].child("body").walk()) 
+    r.check(ok, "_remove_all_r|directory-after-entries", "", "the directory is removed before its entries", rec)
+    # every error returns
+    bfe = BranchFacts(rec, kill="assign")
+    def dropped(f, c):
+        n = c
+        while True:
+            if cfg.is_discarded(f, n):
+                return True
+            p_ = f.parent_of(n)
+            if p_ is None or p_.get("k") not in ("cast", "construct", "other"):
+                return False
+            n = p_
+    errs = [c for c in rec.calls() if c.get("k") == "call" and (c.get("fn") or "").split("::")[-1] in ("link_status", "_remove_all_r", "remove")]
+    lost = [c for c in errs if dropped(rec, c)]
+    r.check(len(errs) == 4 and not lost, "_remove_all_r|errors-stop-walk", "%d error results consumed" % len(errs),
+            "an error result of the walk is dropped: %s" % (expr_str(lost[0])[:60] if lost else "call set changed"), rec, lost[0] if lost else None)
+    # each consumed error is returned: the `if (error_code ec = ...)` arms and the `if (ec)` arms return
+    ifs = [n for n in rec.nodes if n.get("k") == "if" and ("ec" in expr_str(n.child("c")) or n.get("condvar"))]
+    noret = [n for n in ifs if not any(x.get("k") == "return" for x in n.child("then").walk())]
+    r.check(len(ifs) >= 6 and not noret, "_remove_all_r|errors-returned", "%d error tests" % len(ifs), "an error test in the walk does not return the error", rec)
+
 
 
 def conj(n):
@@ -29,6 +107,7 @@ def conj(n):
 
 def run(ctx):
     prog, rep = ctx.prog, ctx.report
+    r_remove_tree(prog, rep)
     f = prog.fn(CMD + "::execute")
     bf = BranchFacts(f, kill="assign")
 
@@ -149,6 +228,21 @@ def run(ctx):
 
 
 VARIANTS = [
+    dict(name="remove-follows-symlink-to-directory", file=FS,
+         old="    llbuild::basic::sys::StatStruct statbuf;\n    if (llbuild::basic::sys::lstat(path.c_str(), &statbuf) != 0) {\n      return false;\n    }\n\n    if (S_ISDIR(statbuf.st_mode)) {\n      if (llbuild::basic::sys::rmdir",
+         new="    llbuild::basic::sys::StatStruct statbuf;\n    if (llbuild::basic::sys::stat(path.c_str(), &statbuf) != 0) {\n      return false;\n    }\n\n    if (S_ISDIR(statbuf.st_mode)) {\n      if (llbuild::basic::sys::rmdir",
+         expect=("R-REMOVE-TREE", "remove|")),
+    dict(name="tree-walk-follows-symlinks", file=FS, old="      directory_iterator i(path, ec, /* FollowSymlinks */ false);", new="      directory_iterator i(path, ec, /* FollowSymlinks */ true);",
+         expect=("R-REMOVE-TREE", "iterate-path-without-following-links")),
+    dict(name="entry-type-through-link-target", file=FS, old="        if (error_code ec = link_status(i->path(), st))", new="        if (error_code ec = status(i->path(), st))",
+         expect=("R-REMOVE-TREE", "_remove_all_r|")),
+    dict(name="directory-removed-before-entries", file=FS,
+         edits=[("      directory_iterator i(path, ec, /* FollowSymlinks */ false);\n", "      if (error_code ec2 = remove(path, false))\n        return ec2;\n      directory_iterator i(path, ec, /* FollowSymlinks */ false);\n")],
+         expect=("R-REMOVE-TREE", "_remove_all_r|")),
+    dict(name="subdirectory-error-ignored", file=FS, old="        if (error_code ec = _remove_all_r(i->path(), st.type(), count))\n          return ec;", new="        _remove_all_r(i->path(), st.type(), count);",
+         expect=("R-REMOVE-TREE", "errors-stop-walk")),
+    dict(name="rm-tree-for-non-directory", file=FS, old="    if (S_ISDIR(statbuf.st_mode)) {\n      if (llbuild::basic::sys::rmdir", new="    {\n      if (llbuild::basic::sys::rmdir",
+         expect=("R-REMOVE-TREE", "only-for-directories")),
     dict(name="root-test-args-swapped", file="lib/BuildSystem/BuildSystem.cpp", old="        if (pathIsPrefixedByPath(fileToDelete, root)) {", new="        if (pathIsPrefixedByPath(root, fileToDelete)) {",
          expect=("R-STALE-GUARD", "flag-set-only-by-prefix-test")),
     dict(name="outside-root-only-warns", file="lib/BuildSystem/BuildSystem.cpp",
